@@ -416,6 +416,32 @@ def r5_explicit_options_win(ctx):
                    'the optional argument `%s` is never merged with config[%r]: left at None it means "off", so a configured %s (e.g. --offset) has no effect on the displayed text' % (pname, pname, pname),
                    anchor=fp.qualname)
 
+    # the merged value is what the function works with: every other read of such a parameter comes after its merge (a read before it sees the
+    # caller's None, i.e. "off", whatever the configuration says)
+    gp = ctx.cfg(fp)
+    rdp = ctx.rd(fp)
+    for pname, d in sorted(dflt.items()):
+        if not (isinstance(d, ast.Constant) and d.value is None and pname in keys):
+            continue
+        early = []
+        for n in gp.nodes:
+            if n.dup or not isinstance(n.ast, ast.AST) or n.kind in ('for_init',):
+                continue
+            scope_ = n.ast.test if n.kind == 'test' and hasattr(n.ast, 'test') else n.ast
+            for x in ast.walk(scope_ if n.kind != 'for' else n.ast.iter):
+                if isinstance(x, ast.Name) and x.id == pname and isinstance(x.ctx, ast.Load):
+                    # inside the merge itself?
+                    if isinstance(n.ast, ast.Assign) and isinstance(n.ast.value, ast.Call) and isinstance(n.ast.value.func, ast.Attribute) and n.ast.value.func.attr == 'getvalue' and \
+                            any(x is y for y in ast.walk(n.ast.value)):
+                        continue
+                    if any(dd.kind == 'param' for dd in rdp.at(n, pname)):
+                        early.append((n, x))
+        if not early:
+            rep.ob('C18.R5', ctx.loc(fp, fp.node), 'format_parts: every read of `%s` comes after its merge' % pname, True, 'no use sees the unmerged argument', nontrivial=False, anchor=fp.qualname)
+        for (n, x) in early[:1]:
+            rep.ob('C18.R5', ctx.loc(fp, x), 'format_parts reads `%s` before it is merged with the configuration' % pname, False,
+                   '`%s` is read at `%s` while it can still be the caller\'s None: the configured %s (e.g. --offset) does not reach this use, so the displayed numbers ignore the '
+                   'configuration when the argument is left out' % (pname, ctx.src(n.ast, 60), pname), anchor=fp.qualname)
     # ... and a function that hands its OWN optional argument on to such a parameter must leave it at None by default as well: a literal
     # default (False) is an explicit value by the time it arrives, and the configured value never applies
     merged_params = {pname for pname, d in dflt.items() if isinstance(d, ast.Constant) and d.value is None and pname in keys}
@@ -590,6 +616,7 @@ DE = 'xdoctest/doctest_example.py'
 DP = 'xdoctest/doctest_part.py'
 US = 'xdoctest/utils/util_str.py'
 VARIANTS = [
+    fire('options-merged-after-the-numbering-was-computed', 'C18.R5', (DE, "        colored = self.config.getvalue('colored', colored)\n        partnos = self.config.getvalue('partnos')\n        offset_linenos = self.config.getvalue('offset_linenos', offset_linenos)\n\n        n_digits = None\n", '\n        n_digits = None\n'), (DE, '            n_digits = int(math.ceil(n_digits))\n\n        for part in self._parts:\n            part_text = part.format_part(', "            n_digits = int(math.ceil(n_digits))\n\n        colored = self.config.getvalue('colored', colored)\n        partnos = self.config.getvalue('partnos')\n        offset_linenos = self.config.getvalue('offset_linenos', offset_linenos)\n        for part in self._parts:\n            part_text = part.format_part(")),
     fire('format-src-default-is-an-explicit-value', 'C18.R5', (DE, "    def format_src(self, linenos=True, colored=None, want=True,\n                   offset_linenos=None, prefix=True):\n", "    def format_src(self, linenos=True, colored=None, want=True,\n                   offset_linenos=False, prefix=True):\n")),
     fire('getvalue-merges-by-truthiness', 'C18.R5', (DE, "        if given is None:\n            return self[key]\n", "        if not given:\n            return self[key]\n")),
     silent('getvalue-early-return', (DE, "        if given is None:\n            return self[key]\n        else:\n            return given\n", "        if given is not None:\n            return given\n        return self[key]\n")),
